@@ -181,6 +181,7 @@ Eval(e, st) ==
              r == Eval(e.r, st) IN
          IF IsErr(l) THEN l ELSE IF IsErr(r) THEN r ELSE ContainsRes(r, l, st)
     [] e.k = "group" -> Eval(e.e, st)
+    [] OTHER -> Err("UNSPEC")
 
 \* evaluate a sequence of expressions into Arr (or the first error)
 EvalSeq(es, i, st) ==
@@ -190,14 +191,14 @@ EvalSeq(es, i, st) ==
        ELSE LET rest == EvalSeq(es, i + 1, st) IN
             IF IsErr(rest) THEN rest ELSE Arr(<<v>> \o rest.v)
 
-\* path segments: [t |-> "k", v |-> name] | [t |-> "i", v |-> index] | [t |-> "p", v |-> segs]
+\* path segments: [t |-> "k", v |-> name] | [t |-> "i", i |-> index] | [t |-> "p", p |-> segs]
 EvalPath(segs, i, obj, st) ==
   IF IsErr(obj) THEN obj
   ELSE IF i > Len(segs) THEN obj
   ELSE LET s == segs[i]
            key == CASE s.t = "k" -> Str(s.v)
-                    [] s.t = "i" -> IntV(s.v)
-                    [] s.t = "p" -> EvalPath(s.v, 2, Resolve(s.v[1].v, st), st)
+                    [] s.t = "i" -> IntV(s.i)
+                    [] s.t = "p" -> EvalPath(s.p, 2, Resolve(s.p[1].v, st), st)
        IN IF IsErr(key) THEN key
           ELSE IF UndefErr(key, st, "key") THEN Err("UndefinedError")
           ELSE EvalPath(segs, i + 1, GetItem(obj, key), st)
@@ -213,7 +214,9 @@ DefaultLike == {"default"}
 EvalFilters(fs, left, st) ==
   IF fs = <<>> THEN left
   ELSE LET f == fs[1] IN
-       IF f.n \notin Known THEN Err("UnknownFilterError")
+       IF f.n \notin Known THEN Err("UNSPEC")            \* filter not (yet) in the reference
+       ELSE IF \E j \in DOMAIN f.args : f.args[j].k = "lambda" THEN Err("UNSPEC")
+       ELSE IF "kw" \in DOMAIN f /\ f.kw # <<>> THEN Err("UNSPEC")
        ELSE LET args == EvalArgs(f.args, 1, st) IN
             IF IsErr(args) THEN args
             ELSE IF UndefErr(left, st, "filter") /\ f.n \notin DefaultLike THEN Err("UndefinedError")
@@ -251,7 +254,7 @@ IsBlankNode(n) ==
          /\ (n.else.has => IsBlankSeq(n.else.body))
     [] n.k = "for" -> IsBlankSeq(n.body) /\ (n.else.has => IsBlankSeq(n.else.body))
     [] n.k \in {"with", "liquid"} -> IsBlankSeq(n.body)
-    [] n.k \in {"include", "render", "call"} -> FALSE
+    [] n.k \in {"include", "render", "call", "tablerow"} -> FALSE
     [] OTHER -> FALSE
 
 -----------------------------------------------------------------------------
@@ -413,6 +416,7 @@ ExecNode(n, st) ==
          ELSE LET sc == [i \in DOMAIN n.args |-> <<n.args[i].n, vals.v[i]>>]
                   s1 == ExecBlock(n.body, [st EXCEPT !.scopes = Append(@, sc)])
               IN [s1 EXCEPT !.scopes = st.scopes]
+    [] OTHER -> Fail(st, "UNSPEC")          \* construct outside the reference semantics
 
 -----------------------------------------------------------------------------
 (* partial templates: include (shared scope), render and macro/call (isolated) *)
